@@ -78,6 +78,9 @@ var _ uuid.UUID
 //@ set notified = notified + 1
 //@ set outcome = $arg2
 //@ end
+//@ at go *
+//@ requires [C04 apply-is-single-threaded] false
+//@ end
 //@ at call Hnsw).RandomLevel
 //@ requires [C04 apply-is-deterministic] false
 //@ end
@@ -110,6 +113,9 @@ var _ uuid.UUID
 //@ set notified = notified + 1
 //@ set outcome = $arg2
 //@ end
+//@ at go *
+//@ requires [C04 apply-is-single-threaded] false
+//@ end
 //@ at call Hnsw).RandomLevel
 //@ requires [C04 apply-is-deterministic] false
 //@ end
@@ -141,6 +147,9 @@ var _ uuid.UUID
 //@ at call Notificator).Notify
 //@ set notified = notified + 1
 //@ set outcome = $arg2
+//@ end
+//@ at go *
+//@ requires [C04 apply-is-single-threaded] false
 //@ end
 //@ at call Hnsw).RandomLevel
 //@ requires [C04 apply-is-deterministic] false
@@ -220,6 +229,9 @@ var _ uuid.UUID
 //@ set notified = notified + 1
 //@ set outcome = $arg2
 //@ end
+//@ at go *
+//@ requires [C04 apply-is-single-threaded] false
+//@ end
 //@ at call Hnsw).RandomLevel
 //@ requires [C04 apply-is-deterministic] false
 //@ end
@@ -265,6 +277,9 @@ var _ uuid.UUID
 //@ set notified = notified + 1
 //@ set outcome = $arg2
 //@ end
+//@ at go *
+//@ requires [C04 apply-is-single-threaded] false
+//@ end
 //@ at call Hnsw).RandomLevel
 //@ requires [C04 apply-is-deterministic] false
 //@ end
@@ -305,6 +320,9 @@ var _ uuid.UUID
 //@ at call Notificator).Notify
 //@ set notified = notified + 1
 //@ set outcome = $arg2
+//@ end
+//@ at go *
+//@ requires [C04 apply-is-single-threaded] false
 //@ end
 //@ at call Hnsw).RandomLevel
 //@ requires [C04 apply-is-deterministic] false
@@ -377,6 +395,9 @@ var _ uuid.UUID
 //@ end
 //@ at call partition).batchDeleteValue
 //@ set notified = notified + 1
+//@ end
+//@ at go *
+//@ requires [C04 apply-is-single-threaded] false
 //@ end
 //@ at call Hnsw).RandomLevel
 //@ requires [C04 apply-is-deterministic] false
